@@ -108,7 +108,20 @@ def cases(draw):
     forms = []
     for k in range(draw(st.integers(1, 6))):
         ops = [draw(st.sampled_from(codes)) for _ in range(draw(st.integers(1, 3)))]
-        forms.append({"name": "tstq%s-%s" % ("abcdef"[k], "_".join(ops)), "tp": draw(measurement("tp")),
+        letter = "abcdef"[k]
+        if forms and draw(st.integers(0, 2)) == 0:
+            # another form of a mnemonic imported before (other operand kinds, often the same operand count)
+            prev = draw(st.sampled_from(forms))["name"]
+            pm, po = prev.split("-")
+            if draw(st.booleans()):
+                ops = (ops + ops + ops)[:len(po.split("_"))]
+            dec = dec_x86 if isa == "x86" else dec_a64
+            mine = [dec(c) for c in ops]
+            # (two codes can denote the same operand pattern, e.g. v and vd: that would be the same form twice)
+            if not any(f_["name"].split("-")[0] == pm and [dec(c) for c in f_["name"].split("-")[1].split("_")] == mine
+                       for f_ in forms):
+                letter = pm[4:]
+        forms.append({"name": "tstq%s-%s" % (letter, "_".join(ops)), "tp": draw(measurement("tp")),
                       "lt": draw(measurement("lt")),
                       "which": draw(st.sampled_from(["both", "both", "both", "rev", "tp", "lt"])) if bench == "ibench"
                       else "both"})
@@ -225,10 +238,25 @@ def check_case(case):
     if case["corrupt"]:
         cut = case["corrupt"][1]
     accepted = rejected = 0
+    def ops_of(e_):
+        return [{k2: v for k2, v in o.items() if k2 in ("class", "name", "prefix", "shape", "imd", "base", "offset",
+                                                        "index", "scale", "pre_indexed", "post_indexed")}
+                for o in e_.get("operands", [])]
+
     for k, f in enumerate(case["forms"]):
         mn, ops = f["name"].split("-")
         es = got.get(mn, [])
         tag = "%s:%s" % (case["bench"], case["isa"])
+        shared = sum(1 for f_ in case["forms"] if f_["name"].split("-")[0] == mn) > 1
+        if shared:
+            # several imported forms of one mnemonic: this form's entry is the one with its operands
+            want = [dec(c) for c in ops.split("_")]
+            mine = [e_ for e_ in es if ops_of(e_) == want]
+            if k < cut and len(mine) != 1:
+                raise Violation("entry-count:shared-mnemonic:" + tag, "imported form %s (one of several forms of %s in "
+                                "the file) appears %d times in the emitted model" % (f["name"], mn, len(mine)),
+                                [ops_of(e_) for e_ in es], want)
+            es = mine
         if k >= cut:
             if es:
                 raise Violation("after-malformed-block:" + tag, "form %s at or after the malformed asmbench block was "
@@ -270,8 +298,13 @@ def check_case(case):
     extra = set(got) - {f["name"].split("-")[0] for f in case["forms"]}
     if extra:
         raise Violation("invented-entry", "emitted model contains forms that were not in the file", sorted(extra), None)
+    if any(sum(1 for f_ in case["forms"] if f_["name"].split("-")[0] == f["name"].split("-")[0]) > 1
+           for f in case["forms"]):
+        shared_cl = ["several-forms-of-one-mnemonic"]
+    else:
+        shared_cl = []
     nt = (accepted and rejected) or (case["corrupt"] is not None and case["corrupt"][1] > 0)
-    cl = [case["bench"], case["isa"]]
+    cl = [case["bench"], case["isa"]] + shared_cl
     if case["corrupt"]:
         cl.append("corrupt:" + case["corrupt"][0] + (":last" if case["corrupt"][1] == len(case["forms"]) - 1 else ""))
     if rejected:
